@@ -275,10 +275,16 @@ def flag_tree(rng, forest):
     return forest
 
 
+def wd_annot():
+    """Generated.LybTree.lybWdAnnot: lyb_print_metadata has the with-defaults block (false once fixes/F330.diff is applied)"""
+    txt = open(os.path.join(paths.LEAN, "LyModel", "Generated", "LybTree.lean")).read()
+    return re.search(r"def lybWdAnnot : Bool := (\w+)", txt).group(1) == "true"
+
+
 def expected_view(schema, forest, wd):
     """what print -> parse returns: under the tagged modes the tagged term nodes carry the annotation as metadata"""
     out = [n.clone() for n in forest]
-    if wd not in ("all-tag", "impl-tag"):
+    if wd not in ("all-tag", "impl-tag") or not wd_annot():
         return out
 
     def w(n):
@@ -414,8 +420,18 @@ def gen_cases(cx, rng):
     return cases
 
 
+def meta_skip_width():
+    txt = open(os.path.join(paths.LEAN, "LyModel", "Generated", "LybTree.lean")).read()
+    return int(re.search(r"def R_METASKIPVAL : Nat := (\d+)", txt).group(1)), int(re.search(r"def P_METAVAL : Nat := (\d+)", txt).group(1))
+
+
 def classify(component, what, case):
     if component != "lybtree" or not isinstance(case, dict):
+        return None
+    if " lybtree metaskip " in (case.get("line") or "") or case.get("op") == "metaskip":
+        rw, pw = meta_skip_width()
+        if rw != pw and (case.get("crash") or case.get("stage") in ("parse", "content")):
+            return "F331"        # the skip branch reads the value length with another width than it was printed with
         return None
     if case.get("f27") and case.get("stage") == "print-eint":
         return "F27"
@@ -524,6 +540,22 @@ def run_lybtree(cx):
             cx.disagree("lybtree", "parse of the model's image: " + line, pi[:1] + [x[:200] for x in pi[1:]], pm[:1] + [x[:200] for x in pm[1:]])
         if mp != pi:
             cx.disagree("lybtree", "model tparse of libyang's image: " + line, pi[:1] + [x[:200] for x in pi[1:]], mp[:1] + [x[:200] for x in mp[1:]])
+    # finding F331: annotation of a module the parsing context lacks, non-strict parse (the `_fails` witness lyb_meta_skip_fails)
+    vals = [b"hello", b""] + ([b"x", b"a" * 300] if cx.tier == "thorough" else []) + [bytes(rng.choice(b"abcdefgh") for _ in range(rng.randrange(1, 40))) for _ in range(cx.n(0, 20))]
+    ml = ["s%d lybtree metaskip %s" % (i, hexs(v)) for i, v in enumerate(vals)]
+    rs = cx.run_impl(API, ml, component="lybtree", timeout=300, env=ENV)
+    for i, v in enumerate(vals):
+        r = rs.get("s%d" % i, ["err", "NoReply"])
+        cx.count(("metaskip", v), True, "lybtree:metaskip:%s" % " ".join(r[:2] if r[0] == "err" else r[:1]))
+        if r[:2] == ["err", "Crash"]:
+            continue            # recorded and classified through run_impl
+        c = {"op": "metaskip", "value": v.decode(), "reply": " ".join(r)[:300]}
+        if r[0] != "ok":
+            c["stage"] = "parse"
+            cx.fail("lybtree", "LYB data with an annotation of a module the context lacks is rejected by a non-strict parse", c)
+        elif unhex(r[1]) != b'{"dat:x":"val","dat:y":7}':
+            c["stage"] = "content"
+            cx.fail("lybtree", "LYB data with an annotation of a module the context lacks is mis-parsed", c)
     # collision statistics (python copy of the hash, tools/checks/lybhash.py)
     for (s, rev, forest, wd, meta) in cases:
         if meta["kind"] in ("wide", "collide"):
